@@ -40,6 +40,7 @@ type Prog struct {
 	valueUsed        map[*ssa.Function]bool
 	roots            map[*ssa.Function]bool // activity roots (connection loop, frame executor, dispatcher, client call)
 	rootsAreExits    bool
+	loopRoots        map[*ssa.Function]bool
 }
 
 func allFunctions(prog *ssa.Program) map[*ssa.Function]bool { return ssautil.AllFunctions(prog) }
@@ -140,6 +141,10 @@ func loadProg(dir string) (*Prog, error) {
 				if mc, ok := in.(*ssa.MakeClosure); ok {
 					if f, ok := mc.Fn.(*ssa.Function); ok {
 						p.closure[f] = append(p.closure[f], mc)
+						if u := p.unbound(f); u != f {
+							// bound method value c.m: also a "closure" of the method itself
+							p.closure[u] = append(p.closure[u], mc)
+						}
 					}
 				}
 			}
